@@ -302,7 +302,8 @@ def gateCore (g : Cond.Grammar) (reJ : Json) (j : Json) : Except String Json := 
           ("field", match it.field with | some f => strToJson f | none => .null),
           ("applied", .arr (it.applied.map strToJson).toArray)]).toArray),
       ("after", .arr (after.items.map fun it => Json.mkObj [("det", strToJson it.det),
-          ("field", match it.field with | some f => strToJson f | none => .null)]).toArray),
+          ("field", match it.field with | some f => strToJson f | none => .null),
+          ("refs", .arr (it.refs.map strToJson).toArray)]).toArray),
       ("applied", .arr (after.applied.map strToJson).toArray),
       ("leaves", leaves)])
 
